@@ -51,6 +51,16 @@ theorem c12_facts_shape :
     Generated.specSelfWrites.filter (·.1 == "Delete") = [] ∧
     virtualLikeObject Generated.defaultReg_delete = true := by decide
 
+/-- **Facts obligation, S-rooted paths**: `Delete.__init__` passes its path through
+    `_s_first_item` (a first step written `S.name` / `Path(S, name)` is re-spelled `S[name]`, for
+    exactly the ops `_t_eval` hands to `_s_first_magic` when the path is read): the path a Delete
+    keeps is the path as it is evaluated, `Delete(S.a)` deletes the scope variable `a`. -/
+theorem c12_facts_s_first (sroot : Bool) (steps : List Step) :
+    initPath (genSFirst "Delete") sroot steps = readSteps sroot steps := by
+  have ht : genSFirst "Delete" = [(".", "["), ("P", "[")] := by decide
+  rw [ht]
+  exact Glom.C11.initPath_eq_readSteps sroot steps
+
 /-- **Same object**: whatever `delete` returns is the target it was given — for every input. -/
 theorem c12_same_object (env : MEnv) (sroot : Bool) (sref : Val) (ignore : Bool) (h : Heap)
     (target : Val) (orig : List Step) (r : Val)
@@ -69,6 +79,17 @@ theorem c12_refines {env : MEnv} {orig : List Step} (hy : Hyps env orig) (sroot 
       (refDelete env h (if sroot then sref else target) orig ignore) := by
   obtain ⟨hwf, hc, hs⟩ := C12.covered_parts hy
   exact delete_spec hwf hc sroot sref ignore h target orig hs
+
+/-- **Refinement, from the spec as written**: `glom(target, Delete(path, ignore_missing))` — with
+    `Delete.__init__`'s re-spelling of the first step of an S-rooted path — is the prescription
+    along the path as it is read (`S.a` ≡ `S['a']`). -/
+theorem c12_refines_spec {env : MEnv} {orig : List Step} (sroot : Bool)
+    (hy : Hyps env (readSteps sroot orig)) (sref : Val) (ignore : Bool) (h : Heap) (target : Val) :
+    Refines h target ignore ((readSteps sroot orig).getLast?.map (·.2))
+      (delete env sroot sref ignore h target (initPath (genSFirst "Delete") sroot orig))
+      (refDelete env h (if sroot then sref else target) (readSteps sroot orig) ignore) := by
+  rw [c12_facts_s_first sroot orig]
+  exact c12_refines hy sroot sref ignore h target
 
 /-- **Equals Python's `del`**: when the addressed key / index / attribute exists and can be
     deleted, `delete` returns the target and leaves exactly the heap `del` leaves — for plain
